@@ -128,15 +128,9 @@ def run(chk):
       res = x.value
   if res is None:
     raise AnalysisError('BuildTreeForCombine: result dict not found')
-  shape_b = tables.shape(res)
-  # inline the aggregated_field_value local
-  afv = None
-  for x in walk_local(btc.node):
-    if isinstance(x, ast.Assign) and dotted(x.targets[0]) == 'aggregated_field_value':
-      afv = tables.shape(x.value)
-  if afv is None:
-    raise AnalysisError('BuildTreeForCombine: aggregated_field_value not found')
-  shape_b['head']['record']['field_value'] = [afv]
+  # locals holding parts of the tree (aggregated_field_value) are read as
+  # their definitions: the shape is that of the tree, however it is assembled
+  shape_b = tables.shape(FnView(repo, 'parse.BuildTreeForCombine').expand(res))
   body_added = any(isinstance(x, ast.Assign) and isinstance(x.targets[0], ast.Subscript)
                    and const_str(x.targets[0].slice) == 'body' for x in walk_local(btc.node))
   nt = repo.func('parse.NegationTree')
@@ -173,14 +167,27 @@ def run(chk):
          '`F(x) = v` appends the field a named argument would produce',
          'shapes differ: %s vs %s' % (plain_h[:1], plain_r[:1]), fi=phc)
   # P(k) Op= e is distinct
-  pr = FnView(repo, 'parse.ParseRule')
+  # in whichever function parses the head (ParseRule or a helper of it): the
+  # flag ParseHeadCall returns second guards the store of 'distinct_denoted'
   ok = False
-  for n in pr.cfg.stmt_nodes():
-    st = pr.cfg.stmt[n]
-    if isinstance(st, ast.Assign) and isinstance(st.targets[0], ast.Subscript) and \
-        const_str(st.targets[0].slice) == 'distinct_denoted':
-      if any(val and dotted(e) == 'is_distinct' for e, val in pr.guards(n)) and pr.live(n):
-        ok = True
+  pr = FnView(repo, 'parse.ParseRule')
+  for q, hfi in repo.by_name('parse').funcs.items():
+    flags = set()
+    for x in walk_local(hfi.node):
+      if isinstance(x, ast.Assign) and isinstance(x.value, ast.Call) and \
+          call_tail(x.value) == 'ParseHeadCall' and isinstance(x.targets[0], ast.Tuple) and \
+          len(x.targets[0].elts) == 2 and isinstance(x.targets[0].elts[1], ast.Name):
+        flags.add(x.targets[0].elts[1].id)
+    if not flags:
+      continue
+    hv = FnView(repo, 'parse.' + q)
+    for n in hv.cfg.stmt_nodes():
+      st = hv.cfg.stmt[n]
+      if isinstance(st, ast.Assign) and isinstance(st.targets[0], ast.Subscript) and \
+          const_str(st.targets[0].slice) == 'distinct_denoted':
+        if any(val and dotted(e) in flags for e, val in hv.guards(n)) and hv.live(n):
+          ok = True
+          pr = hv
   chk.ob('C11-R1', ok, None, 'a head-level aggregation makes the rule distinct',
          '`P(k) Op= e` is no longer treated as `... distinct`', fi=pr.fi)
   rets = [r for r in walk_local(phc.node) if isinstance(r, ast.Return) and
@@ -261,7 +268,7 @@ def run(chk):
     if modname is None:
       raise AnalysisError('%s.LibraryProgram does not return <module>.library' % cls)
     m = repo.by_name(modname)
-    text = const_str(m.module_assign('library'))
+    text = _library_text(m)
     st = logica_statements(text)
     by_head = {}
     for s in st:
@@ -284,3 +291,13 @@ def run(chk):
         chk.ob('C11-R3', have[0] == common, '%s:library' % m.relpath,
                '%s definition of %s agrees with the other libraries' % (engine, pred),
                'defined as `%s`, siblings use `%s`' % (have[0], common))
+
+
+def _library_text(m):
+  """text of <dialect>_library.library: a string constant or a constant
+  expression over named string constants."""
+  try:
+    v = tables.const_value(m.module_assign('library'))
+  except AnalysisError:
+    return None
+  return v if isinstance(v, str) else None
